@@ -48,6 +48,10 @@ type trCtx struct {
 	named   []string // named results
 }
 
+// qualified calls of functions translated earlier (package alias + name -> Lean name, parameter and result types);
+// set by the driver before translating a file whose functions delegate to them (api.go)
+var trQCalls = map[string]lpCallee{}
+
 type methodSig struct {
 	nret   int
 	ptr    bool
@@ -82,6 +86,8 @@ func goTypeOf(e ast.Expr) ltype {
 			return tBuffer
 		case "error":
 			return tErr
+		case "RedactableString", "RedactableBytes":
+			return tBytes
 		}
 	case *ast.ArrayType:
 		if id, ok := t.Elt.(*ast.Ident); ok && (id.Name == "byte" || id.Name == "uint8") && t.Len == nil {
@@ -212,6 +218,19 @@ func (c *trCtx) typeOfExpr(e ast.Expr) ltype {
 				return tBytes
 			}
 		}
+		if at, ok := x.Fun.(*ast.ArrayType); ok && goTypeOf(at) == tBytes {
+			return tBytes // []byte(x)
+		}
+		if id, ok := x.Fun.(*ast.Ident); ok && len(x.Args) == 1 {
+			switch id.Name {
+			case "RedactableString", "RedactableBytes":
+				return tBytes
+			case "string":
+				if c.typeOfExpr(x.Args[0]) == tBytes {
+					return tBytes
+				}
+			}
+		}
 		if se, ok := x.Fun.(*ast.SelectorExpr); ok {
 			if id, ok := se.X.(*ast.Ident); ok {
 				switch id.Name + "." + se.Sel.Name {
@@ -221,6 +240,9 @@ func (c *trCtx) typeOfExpr(e ast.Expr) ltype {
 					return tBytes
 				case "utf8.RuneLen":
 					return tInt
+				}
+				if ce, ok := trQCalls[id.Name+"."+se.Sel.Name]; ok && len(ce.rets) == 1 {
+					return ce.rets[0]
 				}
 				if c.vars[id.Name] == tFmtState && se.Sel.Name == "Flag" {
 					return tBool
@@ -417,18 +439,44 @@ func (c *trCtx) call(x *ast.CallExpr, want ltype) string {
 			}
 		}
 		switch id.Name {
+		case "RedactableString", "RedactableBytes":
+			if len(x.Args) == 1 {
+				return c.expr(x.Args[0], tBytes)
+			}
 		case "len":
 			return "(goLen " + c.expr(x.Args[0], tBytes) + ")"
 		case "append":
 			if len(x.Args) == 2 && x.Ellipsis != token.NoPos {
 				return "(" + c.expr(x.Args[0], tBytes) + " ++ " + c.expr(x.Args[1], tBytes) + ")"
 			}
+		case "make":
+			// make([]byte, 0, n): an empty slice (capacity is not observable in the translated subset)
+			if len(x.Args) == 3 {
+				if _, ok := x.Args[0].(*ast.ArrayType); ok && goTypeOf(x.Args[0]) == tBytes {
+					if l, ok := x.Args[1].(*ast.BasicLit); ok && l.Value == "0" {
+						return "([] : List UInt8)"
+					}
+				}
+			}
 		}
 	}
 	if se, ok := x.Fun.(*ast.SelectorExpr); ok {
 		if id, ok := se.X.(*ast.Ident); ok {
 			q := id.Name + "." + se.Sel.Name
+			if ce, ok := trQCalls[q]; ok && len(ce.params) == len(x.Args) {
+				r := "(" + ce.lean
+				for i, a := range x.Args {
+					r += " " + c.expr(a, ce.params[i])
+				}
+				return r + ")"
+			}
 			switch q {
+			case "ReStripMarkers.ReplaceAllString", "ReStripMarkers.ReplaceAll", "m.ReStripMarkers.ReplaceAllString", "m.ReStripMarkers.ReplaceAll":
+				// regexp.MustCompile("[‹›]") (its source text is checked in Props/FactsConsts.lean)
+				return "(goReplaceMarkers " + c.expr(x.Args[0], tBytes) + " " + c.expr(x.Args[1], tBytes) + ")"
+			case "ReStripSensitive.ReplaceAllString", "ReStripSensitive.ReplaceAll", "m.ReStripSensitive.ReplaceAllString", "m.ReStripSensitive.ReplaceAll":
+				// regexp.MustCompile("‹[^‹›]*›")
+				return "(goReplaceEnvelopes " + c.expr(x.Args[0], tBytes) + " " + c.expr(x.Args[1], tBytes) + ")"
 			case "bytes.HasSuffix":
 				return "(goHasSuffix " + c.expr(x.Args[0], tBytes) + " " + c.expr(x.Args[1], tBytes) + ")"
 			case "bytes.Equal":
@@ -989,10 +1037,18 @@ func translateFunc(fset *token.FileSet, fd *ast.FuncDecl, leanDefName string, co
 	c := &trCtx{fset: fset, vars: map[string]ltype{}, decl: map[string]bool{}, consts: consts, cints: cints, ctypes: ctypes, methods: methods}
 	var params []string
 	if fd.Recv != nil && len(fd.Recv.List) == 1 && len(fd.Recv.List[0].Names) == 1 {
-		c.recv = fd.Recv.List[0].Names[0].Name
-		_, c.recvPtr = fd.Recv.List[0].Type.(*ast.StarExpr)
-		c.vars[c.recv] = tBuffer
-		params = append(params, fmt.Sprintf("(%s_in : GoBuffer)", c.recv))
+		if goTypeOf(fd.Recv.List[0].Type) == tBytes {
+			// a value receiver of a string / byte-slice type: an ordinary parameter
+			n := fd.Recv.List[0].Names[0].Name
+			c.vars[n] = tBytes
+			c.decl[n] = true
+			params = append(params, fmt.Sprintf("(%s : List UInt8)", leanName(n)))
+		} else {
+			c.recv = fd.Recv.List[0].Names[0].Name
+			_, c.recvPtr = fd.Recv.List[0].Type.(*ast.StarExpr)
+			c.vars[c.recv] = tBuffer
+			params = append(params, fmt.Sprintf("(%s_in : GoBuffer)", c.recv))
+		}
 	}
 	for _, f := range fd.Type.Params.List {
 		t := goTypeOf(f.Type)
